@@ -20,7 +20,7 @@ SPLINE_MAX = 3000
 
 
 TREND_FAMILIES = ["poly", "sin", "const", "npscalar", "poly_sum", "poly_dot", "daily_inplace", "math_sin", "step",
-                  "late_ramp", "clipped", "ufunc", "poly1d"]
+                  "late_ramp", "clipped", "ufunc", "poly1d", "np_polynomial"]
 
 
 def trend_fun(desc):
@@ -55,6 +55,9 @@ def trend_fun(desc):
                 "expm1_neg": np.negative}[c[0]]
     if kind == "poly1d":            # numpy.poly1d objects: callable, with __len__ = degree (a constant polynomial is FALSY)
         return np.poly1d(list(c))
+    if kind == "np_polynomial":     # numpy.polynomial objects (lowest power first, argument mapped from domain to window)
+        klass = np.polynomial.Chebyshev if desc.get("basis") == "chebyshev" else np.polynomial.Polynomial
+        return klass(list(c), domain=desc["domain"]) if desc.get("domain") else klass(list(c))
     if kind == "late_ramp":         # "growth starts later": the int literal 0 first, fractions afterwards
         return lambda t: 0 if t < c[1] else c[0] * (t - c[1])
     if kind == "clipped":           # max(0, ...) returns the int 0 or a float
@@ -87,6 +90,17 @@ def gen_trend(rng, x, y, normalized, families=None):
         c = [mag * float(v) / s ** (deg - j) for j, v in enumerate(rng.normal(0, 1, deg + 1))]
         if deg == 0 and rng.integers(0, 3) == 0:
             c = [0.0]                          # the zero trend
+    elif fam == "np_polynomial":
+        deg = int(rng.integers(0, 4))
+        lo, hi = (float(x[0]) / span, float(x[-1]) / span) if normalized else (float(x[0]), float(x[-1]))
+        d = {"family": fam, "basis": "chebyshev" if rng.integers(0, 3) == 0 else "power"}
+        if rng.integers(0, 2) and hi > lo:
+            # as returned by Polynomial.fit: coefficients refer to the window [-1, 1], the data range is the domain
+            d["domain"] = [lo, hi]
+            d["coef"] = [mag * float(v) for v in rng.normal(0, 1, deg + 1)]
+        else:
+            d["coef"] = [mag * float(v) / s ** j for j, v in enumerate(rng.normal(0, 1, deg + 1))]
+        return d
     elif fam == "daily_inplace":
         c = [mag * c[0], (1.0 if normalized else span) / float(rng.choice([1.0, 2.5, 7.0])), c[2]]
     elif fam == "step":
@@ -235,15 +249,16 @@ def _gen_op(rng, wv, allow=None, new_x_container=True):
                 if b - a < 0.2:
                     continue
                 t = int(rng.integers(0, 4))
+                ba = {"bounds_as_arrays": "0d" if rng.integers(0, 2) else "1el"} if rng.integers(0, 5) == 0 else {}
                 if t == 0:
-                    return {"op": op, "args": [float(a), float(b)],
-                            "kw": {"x_left_as_ratio": True, "x_right_as_ratio": True}}
+                    return dict({"op": op, "args": [float(a), float(b)],
+                                 "kw": {"x_left_as_ratio": True, "x_right_as_ratio": True}}, **ba)
                 if t == 1 and float(x[0]) == float(rx[0]) and float(x[-1]) == float(rx[-1]):
                     # one bound as a ratio, the other as a value (admissible while both series span the same range)
                     if rng.integers(0, 2):
-                        return {"op": op, "args": [float(a), lo + b * (hi - lo)], "kw": {"x_left_as_ratio": True}}
-                    return {"op": op, "args": [lo + a * (hi - lo), float(b)], "kw": {"x_right_as_ratio": True}}
-                return {"op": op, "args": [lo + a * (hi - lo), lo + b * (hi - lo)], "kw": {}}
+                        return dict({"op": op, "args": [float(a), lo + b * (hi - lo)], "kw": {"x_left_as_ratio": True}}, **ba)
+                    return dict({"op": op, "args": [lo + a * (hi - lo), float(b)], "kw": {"x_right_as_ratio": True}}, **ba)
+                return dict({"op": op, "args": [lo + a * (hi - lo), lo + b * (hi - lo)], "kw": {}}, **ba)
         elif op == "truncate_by_index":
             # indices are only meaningful while working and reference series are the same samples
             if n == nr and n >= 3 and np.array_equal(x, rx):
@@ -280,6 +295,12 @@ def materialise(op):
     if name == "noise" and isinstance(args[0], np.ndarray):
         args[0] = _container(op.get("snr_container", "array"), args[0])
         owned.append(args[0])
+    if name == "truncate_by_value" and op.get("bounds_as_arrays"):
+        # bounds computed with NumPy arrive as 0-d / 1-element arrays: mutable objects the call must leave alone (and
+        # which it applies twice - to the working series and to the reference)
+        wrap = (lambda v: np.asarray(float(v))) if op["bounds_as_arrays"] == "0d" else (lambda v: np.array([float(v)]))
+        args = [wrap(v) for v in args]
+        owned += args
     if name == "recreate_from_average":
         kw["rfa_class"] = R.cls(op["strategy"])
     if name == "trend":
@@ -304,7 +325,7 @@ def apply(wv, op, salt=0):
 def printable(op):
     d = {"op": op["op"], "args": [a if not isinstance(a, np.ndarray) else "<array %d>" % len(a) for a in op["args"]],
          "kw": {k: (v if not isinstance(v, np.ndarray) else "<array %d>" % len(v)) for k, v in op["kw"].items()}}
-    for k in ("strategy", "trend", "np_seed", "new_x_container", "snr_container"):
+    for k in ("strategy", "trend", "np_seed", "new_x_container", "snr_container", "bounds_as_arrays"):
         if k in op:
             d[k] = op[k]
     return d
